@@ -48,7 +48,7 @@ def run_lean_unit(lines):
 
 # ----------------------------------------------------------------------------- the alphabet
 
-V0_BOUNDS = [(0.0, 4.0), (None, 1.5), (None, None), (0.0, 2.0), (0.0, 2.0)]   # v0 v1 v2 w[0] w[1]
+V0_BOUNDS = [(0.0, 4.0), (None, 1.5), (None, None), (0.0, 2.0), (0.0, 2.0), (0.0, 5.0)]   # v0 v1 v2 w[0] w[1] z9
 
 
 class World:
@@ -65,7 +65,8 @@ class World:
 
         v0, v1, v2 = [Variable(f"v{i}") for i in range(3)]
         self.w = VectorVariable("w", 2, lb=0.0, ub=2.0)      # natural order: v0 v1 v2 w[0] w[1]
-        self.vs = [v0, v1, v2, self.w[0], self.w[1]]
+        z9 = Variable("z9", lb=0.0, ub=5.0, domain="integer")   # non-continuous: strict=True must raise, else a warning
+        self.vs = [v0, v1, v2, self.w[0], self.w[1], z9]
         w0, w1 = self.w[0], self.w[1]
         self.tag_of_name = {v.name: i for i, v in enumerate(self.vs)}
         self.exprs = {
@@ -88,6 +89,8 @@ class World:
             15: w1 + 0.0,
             16: v0 + 2.0 * v1 + w0 + 3.0 * w1,   # linear objective over both families
             17: 5.0 - v0,                     # 5 - v0 >= 0 is v0 <= 5, looser than ub = 4
+            30: v0 + 2.0 * z9,                # linear with an integer variable
+            31: (z9 - 1.5) ** 2 + v0 ** 2,    # quadratic with an integer variable
         }
         # expressions that *alias user-supplied NumPy data*: built anew (new arrays) for every history and again for every
         # fresh reference problem, so that an in-place change of a coefficient array by the library can neither hide in a
@@ -125,8 +128,15 @@ class World:
         def r_mixed():
             c = np.array([1.0, -2.0]); return (c @ w) + v0, [c]
 
+        def r_view():
+            c = np.array([1.0, 2.0]); return c @ w[::-1], [c]          # reversed view of the vector
+
+        def r_fortran():
+            A = np.asfortranarray(np.array([[1.0, 2.0], [3.0, -1.0]])); c = A[:, 1]   # non-contiguous column
+            return c @ w, [A]
+
         self.recipes = {18: r_c_at_w, 19: r_w_at_c, 20: r_lincomb, 22: r_row(0), 23: r_row(1), 24: r_int,
-                        25: r_list, 26: r_sum, 27: r_wrapped, 28: r_mixed}
+                        25: r_list, 26: r_sum, 27: r_wrapped, 28: r_mixed, 29: r_view, 32: r_fortran}
         self.tag_of_id = {id(e): t for t, e in self.exprs.items()}
         self.inst = {}
         self.ctx = {}
@@ -234,6 +244,9 @@ class Stubs:
         self.problem = None
         self.viol_pending = False
         self.viol_achieved = False
+        self.fault_pending = None     # "exception" | "interrupt" | "callback": the next back-end call fails
+        self.last_solution = None
+        self.last_x = None
         self._installed = False
 
     def install(self):
@@ -266,6 +279,11 @@ class Stubs:
         from scipy.optimize import OptimizeResult
 
         x0 = np.asarray(x0, dtype=float)
+        if self.fault_pending:
+            kind, self.fault_pending = self.fault_pending, None
+            if kind == "callback":
+                fun(x0); jac(x0) if jac is not None else None
+            raise KeyboardInterrupt() if kind == "interrupt" else RuntimeError("back end failed")
         pts = self.probes(x0)
         cache = self.problem._solver_cache if self.problem is not None else None
         rec = {
@@ -319,11 +337,15 @@ class Stubs:
             elif np.isfinite(ub) and x[i] > ub + (1e-6 + 1e-6 * max(1.0, abs(ub))):
                 v = True
         rec["returned_violates"] = v
+        self.last_x = x.copy()
         return OptimizeResult(x=x, success=True, message="stub", fun=float(fun(x)), nit=1, status=0)
 
     def linprog(self, c=None, A_ub=None, b_ub=None, A_eq=None, b_eq=None, bounds=None, method=None, **kw):
         from scipy.optimize import OptimizeResult
 
+        if self.fault_pending:
+            kind, self.fault_pending = self.fault_pending, None
+            raise KeyboardInterrupt() if kind == "interrupt" else RuntimeError("back end failed")
         lp = self.problem._lp_cache if self.problem is not None else None
         cp = lambda a: None if a is None else np.asarray(a, dtype=float).copy()  # noqa: E731
         self.calls.append({
@@ -421,18 +443,49 @@ def apply_op(P, W, op, stubs):
         stubs.problem = P
         stubs.viol_pending = bool(op[2])
         stubs.viol_achieved = False
+        stubs.last_solution = None
+        kw = solve_kwargs(op, stubs)
+        stubs.last_kwargs = kw
+        stubs.fault_pending = (op[3].get("fault") if len(op) > 3 else None)
         try:
             with warnings.catch_warnings():
                 warnings.simplefilter("ignore")
-                sol = P.solve(method=op[1])
+                sw = warnings.showwarning
+                try:
+                    sol = P.solve(method=op[1], **kw)
+                finally:
+                    stubs.showwarning_leak = warnings.showwarning is not sw
+            stubs.last_solution = sol
+        except KeyboardInterrupt:
+            return "raise:KeyboardInterrupt"
         except Exception as ex:  # noqa: BLE001
             return "raise:" + type(ex).__name__
         finally:
             stubs.viol_pending = False
+            stubs.fault_pending = None
         if not stubs.calls:
             return "failed-no-vars" if "no variables" in (sol.message or "") else "solved:[]"
         return "solved"
     raise ValueError(op)
+
+
+def solve_kwargs(op, stubs):
+    """keyword arguments of an extended solve op ("solve", method, viol, {..}): strict, tol, maxiter, use_hessian, and
+    x0 = "prev" (warm start from the point the back end returned last) / "zeros" """
+    if len(op) <= 3:
+        return {}
+    spec = op[3]
+    kw = {k: v for k, v in spec.items() if k in ("strict", "tol", "maxiter", "use_hessian")}
+    if spec.get("x0") == "prev" and getattr(stubs, "last_x", None) is not None:
+        kw["x0"] = np.array(stubs.last_x, dtype=float)
+    return kw
+
+
+def solution_tuple(sol):
+    if sol is None:
+        return None
+    return (sol.status.name, None if sol.objective_value is None else float(sol.objective_value),
+            tuple(sorted((k, float(v)) for k, v in (sol.values or {}).items())), str(sol.message))
 
 
 def call_text(rec, P, W, tr):
@@ -479,7 +532,12 @@ def run_history(W, ops, stubs, with_oracle=True):
                 fails.append({"what": "a coefficient array supplied by the user is no longer bit-identical after solve()",
                               "method": op[1], "arrays": mut[:3], "history": [list(o) for o in ops[: idx + 1]], "at": idx})
                 W.inst = {t: (e, a, [(x.copy(), x.dtype, x.tobytes()) for x in a]) for t, (e, a, _) in W.inst.items()}
-            if with_oracle:
+            if getattr(stubs, "showwarning_leak", False):
+                fails.append({"what": "warnings.showwarning was not restored by solve()", "method": op[1],
+                              "history": [list(o) for o in ops[: idx + 1]], "at": idx})
+                stubs.showwarning_leak = False
+            faulted = len(op) > 3 and op[3].get("fault")
+            if with_oracle and not faulted:
                 f = fresh_oracle(P, W, op, calls, obs, stubs)
                 if f is not None:
                     f.update({"history": [list(o) for o in ops[: idx + 1]], "at": idx})
@@ -549,15 +607,19 @@ def diff_calls(c1, c2):
 def fresh_oracle(P, W, op, calls, obs, stubs):
     """the same solve on a fresh Problem built from the current model; compare captured inputs"""
     Q = fresh_problem(P, W)
+    hsol = solution_tuple(stubs.last_solution)
+    fsol = None
     saved = (stubs.calls, stubs.problem)
+    saved_x = stubs.last_x
     stubs.calls = []
     stubs.problem = Q
-    stubs.viol_pending = len(calls) == 2  # reproduce the retry only where it happened
+    stubs.viol_pending = bool(op[2])      # the back end answers the fresh problem the way it answered the edited one
     try:
         try:
             with warnings.catch_warnings():
                 warnings.simplefilter("ignore")
-                sol = Q.solve(method=op[1])
+                sol = Q.solve(method=op[1], **dict(getattr(stubs, "last_kwargs", {})))
+            fsol = solution_tuple(sol)
             fobs = "solved" if stubs.calls else ("failed-no-vars" if "no variables" in (sol.message or "") else "solved:[]")
         except Exception as ex:  # noqa: BLE001
             fobs = "raise:" + type(ex).__name__
@@ -565,6 +627,7 @@ def fresh_oracle(P, W, op, calls, obs, stubs):
     finally:
         stubs.calls, stubs.problem = saved
         stubs.viol_pending = False
+        stubs.last_x = saved_x
     norm = lambda o: "solved" if o.startswith("solved") else o  # noqa: E731
     if norm(obs) != norm(fobs):
         return {"what": "solve outcome differs from a fresh problem on the current model",
@@ -580,6 +643,15 @@ def fresh_oracle(P, W, op, calls, obs, stubs):
                    "constraint jacobian": "cons", "constraint type": "cons", "number of constraints": "cons"}.get(d, d)
             return {"what": f"solver input `{d}` differs from a fresh problem built from the current model",
                     "method": op[1], "got": str(a.get(key))[:200], "fresh": str(b.get(key))[:200]}
+    # the Solution handed back (status, objective value incl. the sign undone for maximise, values, message): the stubbed
+    # back ends are deterministic functions of their inputs, so equal inputs must give equal Solutions
+    if hsol is not None and fsol is not None:
+        same_sol = hsol[0] == fsol[0] and hsol[2] == fsol[2] and hsol[3] == fsol[3] and (
+            hsol[1] == fsol[1] or (hsol[1] is not None and fsol[1] is not None and
+                                   (abs(hsol[1] - fsol[1]) <= 1e-12 * (1 + abs(fsol[1])) or (hsol[1] != hsol[1] and fsol[1] != fsol[1]))))
+        if not same_sol:
+            return {"what": "Solution returned by solve() differs from the Solution of a fresh problem (same back-end answer)",
+                    "method": op[1], "got": str(hsol)[:300], "fresh": str(fsol)[:300]}
     return None
 
 
@@ -666,6 +738,11 @@ LBS = [-3.0, 0.0, 1.0, None]
 UBS = [0.5, 1.5, 4.0, None]
 
 
+# magnitudes (0, tiny, huge, infinities given explicitly instead of None) and numeric types of a bound value
+BOUND_VALUES = [None, -3.0, -2.0, -0.5, 0.0, 0.25, 1.0, 1.5, 2.5, 4.0, 1e-9, -1e-9, 1e8, -1e8, float("inf"), float("-inf"),
+                2, np.float32(0.5), np.int64(1), np.float64(-0.0), True]
+
+
 def bound_edits(v):
     return [("lb", v, b) for b in LBS] + [("ub", v, b) for b in UBS]
 
@@ -699,7 +776,32 @@ def bound_relation_histories(rng, thorough):
     return hs
 
 
-ARRAY_OBJ = [18, 19, 20, 24, 25, 27, 28]      # objectives that wrap user-supplied arrays / lists
+def kwargs_fault_histories(thorough):
+    """histories the Lean machine does not model (checked against the fresh-problem oracle only): strict / non-strict
+    alternation with an integer variable in the model, a back end that fails in an earlier solve (ordinary exception,
+    KeyboardInterrupt, failure after the callbacks ran), warm starts and other keyword arguments — each followed by edits
+    and further solves that must again equal a fresh problem"""
+    hs = []
+    objs = [("min", 2), ("max", 7), ("min", 31), ("min", 30), ("min", 16), ("min", 3)]
+    conss = [[], [("st", 5, "<=")], [("st", 2, ">=")]]
+    ms = ["auto", "SLSQP", "trust-constr", "L-BFGS-B", "linprog", "Newton-CG"] if thorough else ["auto", "SLSQP", "trust-constr", "linprog"]
+    S = lambda m, **kw: ("solve", m, 0, kw)  # noqa: E731
+    for obj in objs:
+        for cons in conss:
+            head = [obj] + cons
+            for i, m in enumerate(ms):
+                m2 = ms[(i + 1) % len(ms)]
+                hs.append(head + [S(m, strict=False), S(m, strict=True), S(m, strict=False), ("lb", 5, 1.0), S(m, strict=True),
+                                  S(m2, strict=False)])
+                for fault in ("exception", "interrupt", "callback"):
+                    hs.append(head + [S(m, fault=fault), S(m), ("lb", 0, 1.0), S(m), S(m2)])
+                    hs.append(head + [S(m), S(m, fault=fault), ("st", 1, ">="), S(m2), S(m, fault=fault), S(m)])
+                hs.append(head + [S(m), S(m, x0="prev"), S(m, tol=1e-9, maxiter=7), S(m, use_hessian=False), ("ub", 0, 2.5),
+                                  S(m, x0="prev"), S(m2, use_hessian=False), S(m2)])
+    return hs
+
+
+ARRAY_OBJ = [18, 19, 20, 24, 25, 27, 28, 29, 32]      # objectives that wrap user-supplied arrays / lists
 ARRAY_CONS = [[(26, "<=")], [(22, "<="), (23, ">=")], [(14, ">="), (26, "<=")], [(1, ">="), (26, "<=")], []]
 
 
@@ -749,9 +851,9 @@ def histories(rng, thorough):
 def rand_op(rng):
     r = rng.random()
     if r < 0.16:
-        return (rng.choice(["min", "max"]), rng.choice([1, 2, 3, 4, 5, 6, 7, 16, 16, 8, 18, 19, 20, 24, 27, 28]))
+        return (rng.choice(["min", "max"]), rng.choice([1, 2, 3, 4, 5, 6, 7, 16, 16, 8, 18, 19, 20, 24, 27, 28, 29, 30, 31, 32]))
     if r < 0.30:
-        return ("st", rng.choice([1, 2, 3, 5, 6, 7, 8, 9, 10, 11, 12, 13, 14, 15, 16, 17, 22, 23, 26, 18]),
+        return ("st", rng.choice([1, 2, 3, 5, 6, 7, 8, 9, 10, 11, 12, 13, 14, 15, 16, 17, 22, 23, 26, 18, 30, 31]),
                 rng.choice(["<=", ">=", "=="]))
     if r < 0.33:
         return ("stv", rng.choice([">=", "<="]))
@@ -762,7 +864,7 @@ def rand_op(rng):
         k = rng.randint(0, 2)
         return ("stbad", tuple((rng.choice([1, 2, 5, 7]), rng.choice(["<=", ">="])) for _ in range(k)))
     if r < 0.55:
-        return (rng.choice(["lb", "ub"]), rng.randint(0, 4), rng.choice([None, -3.0, -2.0, -0.5, 0.0, 0.25, 1.0, 1.5, 2.5, 4.0]))
+        return (rng.choice(["lb", "ub"]), rng.randint(0, 5), rng.choice(BOUND_VALUES))
     if r < 0.88:
         m = rng.choice(["auto", "auto", "SLSQP", "trust-constr", "linprog", "highs", "highs-ipm", "L-BFGS-B", "BFGS",
                         "Newton-CG", "Nelder-Mead", "TNC", "COBYLA", "trust-ncg"])
@@ -843,6 +945,14 @@ def run(ctx) -> core.Report:
                 key = op[0] if op[0] != "solve" else "solve:" + op[1]
                 rep.histogram[key] = rep.histogram.get(key, 0) + 1
             rep.histogram["back_end_calls_checked_vs_fresh"] = rep.histogram.get("back_end_calls_checked_vs_fresh", 0) + stats["solves"]
+        # not modelled in Lean: keyword arguments, strict mode, failing back ends — fresh-problem oracle only
+        for ops in kwargs_fault_histories(thorough):
+            _, _, fails, stats = run_history(W, ops, stubs)
+            rep.oracle_failures.extend(fails)
+            rep.evaluations += len(ops)
+            rep.nontrivial.add(repr(ops))
+            rep.histogram["kwargs_strict_fault_solves_checked_vs_fresh"] = \
+                rep.histogram.get("kwargs_strict_fault_solves_checked_vs_fresh", 0) + stats["solves"]
     finally:
         stubs.uninstall()
         W.reset_bounds()
@@ -887,6 +997,30 @@ def search(ctx, rep):
     stubs = Stubs()
     stubs.install()
     try:
+        # first the histories on which model and implementation disagreed: each prefix of them, continued by every kind
+        # of solve (LP and NLP path), by bound edits and re-submissions followed by solves — against the fresh-problem oracle
+        def as_ops(h):
+            return [tuple(tuple(tuple(c) for c in x) if isinstance(x, list) else x for x in o) for o in h]
+
+        tails = [[("solve", m, 0)] for m in METHODS] + \
+            [[e, ("solve", m, 0)] for e in (("lb", 0, -3.0), ("ub", 0, 0.5), ("lb", 3, -2.0), ("st", 8, ">="), ("stv", ">="))
+             for m in ("auto", "SLSQP", "highs-ds")] + \
+            [[("solve", "auto", 0), ("solve", "SLSQP", 0), ("solve", "auto", 0)]]
+        seen = set()
+        for mm in rep.corr_mismatches[:150]:
+            h = as_ops(mm.get("history", []))
+            for cut in range(1, len(h) + 1):
+                for tail in tails:
+                    ops = h[:cut] + tail
+                    if repr(ops) in seen:
+                        continue
+                    seen.add(repr(ops))
+                    try:
+                        _, _, fails, _ = run_history(W, ops, stubs)
+                    except Exception:  # noqa: BLE001
+                        continue
+                    if fails:
+                        return fails[0]
         for _ in range(6000):
             ops = rand_history(rng, rng.randint(4, 30))
             _, _, fails, _ = run_history(W, ops, stubs)
